@@ -12,7 +12,7 @@
    (`SSettle`, and the end of the script) NO blocked operation may be enabled.  `allowed` searches these
    interleavings for one that produces exactly the observed results; `mismatches` lists the cases with none. *)
 From FunV Require Import Base.Tac Conc.Monitor Model.QueueMonitor Model.DequeMonitor.
-From Coq Require Import Floats String.
+From Coq Require Import PrimFloat String.
 
 Definition err_eq := err_eqb.
 Definition res_eqb (a b : res) : bool :=
